@@ -449,6 +449,117 @@ async fn rep_race_body(transport: Transport) -> L2 {
   verdict
 }
 
+
+/// Two receive calls (recv / recv_multipart in any combination) are parked on an idle REP from
+/// two tasks; then two requests arrive. Only one of them may hand out a request before a reply
+/// is sent. No barrier is needed: the calls overlap for as long as no request is there.
+async fn rep_parked_pair_body(transport: Transport, kinds: (bool, bool), requests_first: bool) -> L2 {
+  let ctx = match rzmq::Context::new() {
+    Ok(x) => x,
+    Err(e) => return L2::Inconclusive(e.to_string()),
+  };
+  let (rep, ep) = match stack::bound(&ctx, "REP", transport, &[stack::i32opt(opt::RCVTIMEO, 700), stack::i32opt(opt::SNDTIMEO, 1000)]).await {
+    Ok(x) => x,
+    Err(e) => return L2::Inconclusive(e),
+  };
+  let mut reqs = Vec::new();
+  for p in 0..2u8 {
+    match stack::connected(&ctx, "REQ", &ep, &[stack::i32opt(opt::RCVTIMEO, 1500), stack::i32opt(opt::SNDTIMEO, 1000)]).await {
+      Ok(s) => reqs.push((p, s)),
+      Err(e) => return L2::Inconclusive(e),
+    }
+  }
+  tokio::time::sleep(Duration::from_millis(120)).await;
+  if requests_first {
+    for (p, s) in &reqs {
+      if s.send(Msg::from_vec(vec![b'p', *p])).await.is_err() {
+        return L2::Inconclusive("requester send failed".into());
+      }
+    }
+    tokio::time::sleep(Duration::from_millis(60)).await;
+  }
+  let call = |sock: rzmq::Socket, multipart: bool| async move {
+    if multipart {
+      sock.recv_multipart().await.map(|f| f.iter().last().map(|m| m.data().unwrap_or(&[]).to_vec()).unwrap_or_default())
+    } else {
+      sock.recv().await.map(|m| m.data().unwrap_or(&[]).to_vec())
+    }
+  };
+  let t1 = tokio::spawn(call(rep.clone(), kinds.0));
+  let t2 = tokio::spawn(call(rep.clone(), kinds.1));
+  if !requests_first {
+    tokio::time::sleep(Duration::from_millis(100)).await;
+    for (p, s) in &reqs {
+      if s.send(Msg::from_vec(vec![b'p', *p])).await.is_err() {
+        return L2::Inconclusive("requester send failed".into());
+      }
+    }
+  }
+  let a = t1.await.ok().and_then(|r| r.ok());
+  let b = t2.await.ok().and_then(|r| r.ok());
+  let name = |m: bool| if m { "recv_multipart" } else { "recv" };
+  let verdict = if a.is_some() && b.is_some() {
+    L2::Violation(
+      Violation::new("alternation_broken", format!("REP: {}() and {}() parked from two tasks both returned a request ({:?}, {:?}) although no reply was sent in between (requests {} the calls)", name(kinds.0), name(kinds.1), a, b, if requests_first { "were queued before" } else { "arrived after" }))
+        .with("socket", "REP")
+        .with("pattern", "parked_recv_pair")
+        .with("layer", "stack"),
+    )
+  } else {
+    L2::Ok
+  };
+  for (_, s) in &reqs {
+    let _ = s.close().await;
+  }
+  let _ = rep.close().await;
+  stack::term(&ctx).await;
+  verdict
+}
+
+/// Two REQ.send() calls from two tasks while no peer is connected yet (both wait); then the REP
+/// appears. Only one request may go out.
+async fn req_parked_pair_body(transport: Transport) -> L2 {
+  let ctx = match rzmq::Context::new() {
+    Ok(x) => x,
+    Err(e) => return L2::Inconclusive(e.to_string()),
+  };
+  let (req, ep) = match stack::bound(&ctx, "REQ", transport, &[stack::i32opt(opt::SNDTIMEO, 1500), stack::i32opt(opt::RCVTIMEO, 500)]).await {
+    Ok(x) => x,
+    Err(e) => return L2::Inconclusive(e),
+  };
+  let (q1, q2) = (req.clone(), req.clone());
+  let t1 = tokio::spawn(async move { q1.send(Msg::from_static(b"one")).await });
+  let t2 = tokio::spawn(async move { q2.send(Msg::from_static(b"two")).await });
+  tokio::time::sleep(Duration::from_millis(120)).await;
+  let rep = match stack::connected(&ctx, "REP", &ep, &[stack::i32opt(opt::RCVTIMEO, 400)]).await {
+    Ok(s) => s,
+    Err(e) => return L2::Inconclusive(e),
+  };
+  let a = t1.await.ok().map(|r| r.is_ok()).unwrap_or(false);
+  let b = t2.await.ok().map(|r| r.is_ok()).unwrap_or(false);
+  let mut got = 0;
+  while let Ok(Ok(_)) = tokio::time::timeout(Duration::from_millis(500), rep.recv()).await {
+    got += 1;
+    if rep.send(Msg::from_static(b"r")).await.is_err() {
+      break;
+    }
+  }
+  let verdict = if a && b {
+    L2::Violation(
+      Violation::new("alternation_broken", format!("REQ: two send() calls parked from two tasks (no peer yet) both succeeded; the REP received {} requests from one REQ without a reply in between", got))
+        .with("socket", "REQ")
+        .with("pattern", "parked_send_pair")
+        .with("layer", "stack"),
+    )
+  } else {
+    L2::Ok
+  };
+  let _ = rep.close().await;
+  let _ = req.close().await;
+  stack::term(&ctx).await;
+  verdict
+}
+
 trait WithSig {
   fn with_sig(self, k: &str, v: &str) -> Self;
 }
@@ -462,7 +573,7 @@ impl WithSig for L2 {
 }
 
 pub fn run(run: &mut Run) {
-  run.rule = "REQ: histories of 1..11 calls from {send, recv, recv_multipart} by one task against a scripted REP that answers 75% of the requests (RCVTIMEO 60 ms), judged step by step by the reference automaton Ready -send ok-> Expecting -recv ok-> Ready (any other call: invalid-state error, nothing changes; a timed-out recv changes nothing); REP: the mirror image with 1..3 requesters whose replies carry the request id; forced races: two tasks on a 4-thread runtime call REQ.send (REP.recv) at once while a process-wide schedule-point callback holds both behind the state check. Non-trivial = the history contains an out-of-turn call (or the two racing calls met at the barrier). Distinct = hash of the case".into();
+  run.rule = "REQ: histories of 1..11 calls from {send, recv, recv_multipart} by one task against a scripted REP that answers 75% of the requests (RCVTIMEO 60 ms), judged step by step by the reference automaton Ready -send ok-> Expecting -recv ok-> Ready (any other call: invalid-state error, nothing changes; a timed-out recv changes nothing); REP: the mirror image with 1..3 requesters whose replies carry the request id; forced races: two tasks on a 4-thread runtime call REQ.send (REP.recv) at once while a process-wide schedule-point callback holds both behind the state check. parked pairs: two recv / recv_multipart calls (any combination) parked on an idle REP from two tasks before or after two requests arrive, and two REQ.send calls parked while no peer is connected, on current-thread and multi-thread runtimes. Non-trivial = the history contains an out-of-turn call (or the two racing calls met at the barrier / overlapped). Distinct = hash of the case".into();
   run.assumptions = vec![
     "a call that fails for a reason other than the state (timeout, would-block) leaves the state unchanged - except when the peer the request went to detaches (documented)".into(),
     "forced races serialise on a process-wide lock because the schedule-point callback is global".into(),
@@ -510,6 +621,22 @@ pub fn run(run: &mut Run) {
     rec.label(t.name());
     let r = run_l2(Rt::Multi(4), Duration::from_secs(30), rep_race_body(*t));
     l2_result(run, "rep_forced_race", r)
+  });
+  let pairs = (prop::sample::select(vec![Transport::Inproc, Transport::Tcp, Transport::Ipc]), any::<bool>(), any::<bool>(), any::<bool>(), prop::sample::select(vec![Rt::Current, Rt::Multi(2), Rt::Multi(4)]));
+  run.prop("rep_parked_pairs", n_race * 3, 4, 0, pairs, |(t, k1, k2, first, rt), rec: &mut CaseRec| {
+    rec.nontrivial = true;
+    rec.label(t.name());
+    rec.label_if(*k1 || *k2, "recv_multipart_involved");
+    rec.label_if(!*first, "both_parked_before_any_request");
+    let r = run_l2(*rt, Duration::from_secs(30), rep_parked_pair_body(*t, (*k1, *k2), *first));
+    l2_result(run, "rep_parked_pairs", r)
+  });
+  let tr2 = (prop::sample::select(vec![Transport::Inproc, Transport::Tcp, Transport::Ipc]), prop::sample::select(vec![Rt::Current, Rt::Multi(2)]));
+  run.prop("req_parked_pairs", n_race, 4, 0, tr2, |(t, rt), rec: &mut CaseRec| {
+    rec.nontrivial = true;
+    rec.label(t.name());
+    let r = run_l2(*rt, Duration::from_secs(30), req_parked_pair_body(*t));
+    l2_result(run, "req_parked_pairs", r)
   });
   stack::cleanup_scratch();
 }
